@@ -313,7 +313,10 @@ class RenamePrivateParams(ast.NodeTransformer):
                 m = dict((n, n + '_p') for n in names if n + '_p' not in inner and n not in ('self', 'cls'))
                 # nested functions / lambdas that re-bind a parameter name: leave the whole function alone
                 rebinding = any(isinstance(f, (ast.FunctionDef, ast.Lambda)) and f is not st and any(a.arg in m for a in f.args.args) for f in ast.walk(st))
-                if m and not rebinding:
+                # a function that some call hands `**mapping` to receives keyword names computed elsewhere (Axes._init(*args, **kwargs) -> _init_axes): renaming
+                # its parameters would break those callers - the interpreter of the scenario tables noticed that this case was not behaviour-preserving
+                starred = any(isinstance(c, ast.Call) and isinstance(c.func, ast.Name) and c.func.id == st.name and any(k.arg is None for k in c.keywords) for c in ast.walk(node))
+                if m and not rebinding and not starred:
                     ren[st.name] = m
         for st in node.body:
             if isinstance(st, ast.FunctionDef) and st.name in ren:
@@ -339,8 +342,11 @@ class Unpack2Index(ast.NodeTransformer):
     def _stmts(self, body):
         out = []
         for st in body:
+            # (not for calls that give a one-shot iterator: `a, b = zip(...)` unpacks it, `zip(...)[0]` is a TypeError - the interpreter of the scenario tables
+            # noticed that the transformation itself was not behaviour-preserving there)
             if isinstance(st, ast.Assign) and len(st.targets) == 1 and isinstance(st.targets[0], ast.Tuple) and isinstance(st.value, ast.Call) \
-                    and all(isinstance(e, ast.Name) for e in st.targets[0].elts):
+                    and all(isinstance(e, ast.Name) for e in st.targets[0].elts) \
+                    and not (isinstance(st.value.func, ast.Name) and st.value.func.id in ('zip', 'map', 'filter', 'enumerate', 'reversed', 'iter')):
                 self.n += 1
                 t = '_unp%d' % self.n
                 out.append(ast.copy_location(ast.Assign(targets=[ast.Name(id=t, ctx=ast.Store())], value=st.value), st))
